@@ -46,8 +46,8 @@ PROPS: dict = {
                     "also in a fresh subprocess; S-PAGES: .npy files on both sides of 2 MiB of rows fitted by path with "
                     "_madvise_dontneed wrapped; non-trivial = data set with a multi-member cluster / file with at least one release" + RULE_GEN,
             "proof_modules": ["BBProps.C04", "BBProofs.Chunking", "BBProofs.MemPages"]},
-    "C05": {"suites": [multiround.suite_c05, gen.suite_gen({"subcluster"})], "rule": RULE_MR, "proof_modules": ["BBProps.C05", "BBProofs.Multiround", "BBProofs.Names"]},
-    "C06": {"suites": [multiround.suite_c06], "rule": RULE_MR, "proof_modules": ["BBProps.C06", "BBProofs.Multiround", "BBProofs.Names"]},
+    "C05": {"suites": [multiround.suite_c05, gen.suite_gen({"subcluster", "ranges"})], "rule": RULE_MR + "; S-GEN ranges stream: multiround._get_files_range_tuples on real .npy files (0-105 files, row counts incl. 0) vs the generated loop", "proof_modules": ["BBProps.C05", "BBProofs.Multiround", "BBProofs.Names", "BBProofs.GenEq12", "BBProofs.GenEq6", "BBProofs.GenEq", "BBGen.Gen", "BBModel.PyNum"]},
+    "C06": {"suites": [multiround.suite_c06, gen.suite_gen({"ranges"})], "rule": RULE_MR + "; S-GEN ranges stream: multiround._get_files_range_tuples on real .npy files (0-105 files, row counts incl. 0) vs the generated loop", "proof_modules": ["BBProps.C06", "BBProofs.Multiround", "BBProofs.Names", "BBProofs.GenEq12", "BBProofs.GenEq", "BBGen.Gen", "BBModel.PyNum"]},
     "C07": {"suites": [props_tree.c07, legacy.suite_legacy], "rule": RULE_TREE + "; S-LEGACY: bblean vs _legacy.bb_uint8 vs "
             "_legacy.bb_int64 on 2048-bit inputs (radius, diameter, tolerance-legacy), non-trivial = case with a multi-member cluster"},
     "C08": {"suites": [props_tree.c08, gen.suite_gen({"subcluster", "node"})], "rule": RULE_TREE + RULE_GEN + "; node stream: real _BFNode objects with "
